@@ -56,25 +56,84 @@ example : connectPlan {} {} .client .ipv4 = .refuse .connect := by decide
 example : listenPlan {} {} .server = .refuse .listen := by decide
 example : ∃ c h s, connectPlan { client := { enabled := true, defaultMode := .client } } {} .client .ipv4 = .tls c h s := ⟨_, _, _, rfl⟩
 
+/-- **T1 (URL spellings).** Whatever the spelling of the scheme: a URL whose scheme is `https` up to letter case is either
+rejected by `parseUrl` (nothing is sent) or requested with TLS — never sent over a plain session; and when it is accepted
+without a port it goes to the https default port. -/
+theorem T1_url_scheme_never_plain (h : HttpTls) (tf : TFiles) (scheme : String) (u : UrlHost) (r : Bool)
+    (hs : scheme.toLower = "https") :
+    httpUrlPlan h tf scheme u r ≠ some .plain ∧ (urlAccepted scheme = true → urlDefaultPort scheme = httpsDefaultPort) := by
+  have hacc : urlAccepted scheme = true → scheme = "https" := by
+    intro ha
+    simp only [urlAccepted, urlRegexIcase, Bool.or_eq_true, beq_iff_eq, Bool.false_eq_true, if_false] at ha
+    rcases ha with ha | ha
+    · subst ha; exact absurd hs (by decide +kernel)
+    · exact ha
+  refine ⟨?_, fun ha => ?_⟩
+  · unfold httpUrlPlan
+    split
+    · rename_i ha
+      have := hacc ha
+      subst this
+      simpa [urlIsHttps, urlSchemeNormalised, isHttpsCaseInsensitive, isHttpsLiteral] using T1_https_never_plain h tf u r
+    · simp
+  · have := hacc ha
+    subst this
+    decide
+
+example : httpUrlPlan {} {} "HTTPS" .ipv4 true = none ∧ httpUrlPlan {} {} "hTTps" .ipv4 true = none := by decide
+example : ∃ c, httpUrlPlan {} {} "https" .ipv4 true = some (.tls c none none) := ⟨_, rfl⟩
+
+/-- **T9 (connection cache).** For EVERY sequence of requests to one host:port on one `HttpClient` (any mix of http and
+https, connections kept or dropped after each exchange, any initial cache content): every https request is carried by a
+session that was opened with `TlsMode::Client` — a cached plain connection is never reused for it. -/
+theorem T9_cache_never_carries_https_in_clear (cached : Option Mode) (reqs : List CacheReq) :
+    ∀ x ∈ cacheRun cached reqs, x.1 = true → x.2.1 = httpClientHttpsReq := by
+  induction reqs generalizing cached with
+  | nil => simp [cacheRun]
+  | cons r rs ih =>
+    intro x hx hhttps
+    simp only [cacheRun, List.mem_cons] at hx
+    rcases hx with rfl | hx
+    · simp only at hhttps
+      simp only [cacheStep, hhttps, cacheReuseChecksTlsMode]
+      cases cached with
+      | none => simp
+      | some m =>
+        by_cases hm : m = httpClientHttpsReq <;> simp [hm]
+    · exact ih _ x hx hhttps
+
+/-- non-vacuity: http then https to the same host:port opens a second, TLS, connection -/
+example : cacheRun none [⟨false, false⟩, ⟨true, false⟩] = [(false, .none, true), (true, .client, true)] := by decide
+
 /-! ## T2 — the hard TLS 1.2 floor -/
 
 /-- **T2.** For EVERY configured minimum `n` (any integer): the value handed to `SSL_CTX_set_min_proto_version` is at
 least TLS 1.2 and at least `n` — the minimum can be raised, never lowered. -/
 theorem T2_floor (n : Int) : tls12 ≤ floor n ∧ n ≤ floor n := floor_ge n
 
-/-- **T2 (contexts).** Every TLS session, client or server side, runs on a context whose minimum is `floor minVersion`. -/
+/-- **T2 (effective minimum).** For EVERY configured `minVersion` (any integer — unset, below 1.2, a TLS version, a number the
+library rejects such as 0x0305, a DTLS number such as 0xFEFD): after `applyTls12Floor` the context HAS a minimum, it lies
+between TLS 1.2 and TLS 1.3, and it is at least `minVersion` whenever that is a version the library knows. -/
+theorem T2_effective_min (n : Int) :
+    ∃ m, applyFloorMin none n = some m ∧ tls12 ≤ m ∧ m ≤ 772 ∧ (n ≤ 772 → n ≤ m) := applyFloorMin_ok n
+
+/-- **T2 (contexts).** Every TLS session, client or server side, runs on a context whose effective minimum is that value. -/
 theorem T2_connect_min (tc : TCfg) (tf : TFiles) (req : Mode) (t : Target) (c : Ctx) (h s : Option String)
     (hp : connectPlan tc tf req t = .tls c h s) :
-    c.minProto = some (floor tc.client.minVersion) ∧ tls12 ≤ c.lowest ∧ tc.client.minVersion ≤ c.lowest := by
+    c.minProto = applyFloorMin none tc.client.minVersion ∧ tls12 ≤ c.lowest ∧ (tc.client.minVersion ≤ 772 → tc.client.minVersion ≤ c.lowest) := by
   have hm := (client_built _ _ _ (connectPlan_tls hp).1).2.2.1
-  refine ⟨hm, ?_, ?_⟩ <;> simp [Ctx.lowest, hm, (floor_ge tc.client.minVersion).1, (floor_ge tc.client.minVersion).2]
+  obtain ⟨m, h1, h2, _, h4⟩ := applyFloorMin_ok tc.client.minVersion
+  refine ⟨hm, ?_, ?_⟩ <;> simp [Ctx.lowest, hm, h1, h2] <;> exact h4
 
 theorem T2_listen_min (tc : TCfg) (tf : TFiles) (req : Mode) (c : Ctx) (h s : Option String)
     (hp : listenPlan tc tf req = .tls c h s) :
-    c.minProto = some (floor tc.server.minVersion) ∧ tls12 ≤ c.lowest ∧ tc.server.minVersion ≤ c.lowest := by
+    c.minProto = applyFloorMin none tc.server.minVersion ∧ tls12 ≤ c.lowest ∧ (tc.server.minVersion ≤ 772 → tc.server.minVersion ≤ c.lowest) := by
   have hm := (server_built _ _ _ (listenPlan_tls hp).1).2.2.1
-  refine ⟨hm, ?_, ?_⟩ <;> simp [Ctx.lowest, hm, (floor_ge tc.server.minVersion).1, (floor_ge tc.server.minVersion).2]
+  obtain ⟨m, h1, h2, _, h4⟩ := applyFloorMin_ok tc.server.minVersion
+  refine ⟨hm, ?_, ?_⟩ <;> simp [Ctx.lowest, hm, h1, h2] <;> exact h4
 
+example : applyFloorMin none 0 = some 771 ∧ applyFloorMin none 772 = some 772 ∧ applyFloorMin none 773 = some 771 ∧
+    applyFloorMin none 65277 = some 771 := by decide
 example : floor 0 = 771 ∧ floor 769 = 771 ∧ floor 772 = 772 ∧ floor (-5) = 771 := by decide
 
 /-! ## T3 — verification is switched on when configured; fail-fast rules -/
